@@ -14,6 +14,7 @@ RULE = ("Hypothesis: well-formed sequences on 2 channels with time/key signature
         "concatenated with itself (one message object at two positions). Oracle: exact model on raw events of both views. "
         "Non-trivial: n in {d-1,d,d+1}, a note of length m or m+1, k >= 2, or a multi-channel input for set_channel. "
         "Distinct by case digest.")
+RULE = RULE + " Rounds e-g: self-concatenated inputs (pad, cutoff, set_channel), scale with the optional meta_sequence argument, channel pools, silent notes, SEQUENCE_CONTROL noise, far tick shifts."
 ASSUMPTIONS = ["cutoff: total duration is not part of the statement and is not compared",
                "set_channel is compared at event level (note pairing may change when two channels shared a pitch)"]
 TIERS = {"quick": dict(shards=8, examples=1500, alt_ppqn=[480, 7], alt_shards=3),
@@ -23,14 +24,15 @@ TIERS = {"quick": dict(shards=8, examples=1500, alt_ppqn=[480, 7], alt_shards=3)
 @st.composite
 def _case(draw):
     spec = draw(gens.seqspec(meta=gens.meta_events(max_tick=150, max_events=3, with_noise=True),
-                             channels=(0, 1), pitches=draw(st.sampled_from([(60, 61, 62), (60, 61, 62), (21, 108), (0, 127)])), max_notes=7,
+                             channels="pool", pitches=draw(st.sampled_from([(60, 61, 62), (60, 61, 62), (21, 108), (0, 127)])), max_notes=7,
                              max_len=40))
     notes = spec["notes"]
     op = draw(st.sampled_from(["pad", "cutoff", "scale", "set_channel"]))
     if draw(st.integers(0, 3 if op != "pad" else 1)) == 0:
         # long trailing rest: total durations up to 20000 ticks (float round trips of the duration are duration-specific)
         spec["pad"] = draw(st.integers(0, 20000))
-    d = max([n[3] for n in notes] + [m[1] for m in spec["meta"]] + [spec["pad"] or 0])
+    sh = gens.far_shift(draw, spec) if op != "scale" else 0
+    d = max([n[3] + sh for n in notes] + [m[1] + sh for m in spec["meta"]] + [spec["pad"] or 0])
     if op != "scale" and draw(st.integers(0, 4)) == 0:
         # a sequence made of the same material twice (concatenate shares the message objects: one object, two positions).
         # Not for scale: multiplying the waits in place reaches a shared WAIT object twice, a consequence of the sharing that
